@@ -85,13 +85,17 @@ Record fixes := mkFixes {
   f_dlq_open : bool;       (* 6946e0c  v2 Worker.Open's rollback tears the source down *)
   f_force_intent : bool;   (* 9382932  v2 force stop also sets intentionalStop *)
   f_sync_kill : bool;      (* 2f2ec4f  v1 node goroutine Kills the tomb before its deferred nodesWg.Done() *)
-  f_stfail : bool }.       (* 742a56e (v1) / eff71a0 (v2)  a failed store write of UpdateStatus(StatusRunning) Kills the
+  f_stfail : bool;         (* 742a56e (v1) / eff71a0 (v2)  a failed store write of UpdateStatus(StatusRunning) Kills the
                               run's tomb with a fatal error; v1 registers the cleanup goroutine all the same and does not
                               notify the failure handlers a second time *)
-Definition repaired : fixes := mkFixes true true true true true true.
-Definition shipped : fixes := mkFixes false false false false false false.
+  f_own_close : bool }.    (* both engines: the cleanup of a run whose recovery failed (retries exhausted, nested Start
+                              failed) writes Degraded only while runningPipelines[id] is still that run (degradeIfCurrent) *)
+Definition repaired : fixes := mkFixes true true true true true true true.
+Definition shipped : fixes := mkFixes false false false false false false false.
 (* the code as it stood before 742a56e / eff71a0 (used by the _failed_write_..._shipped_refuted witnesses) *)
-Definition repaired_before_stfail : fixes := mkFixes true true true true true false.
+Definition repaired_before_stfail : fixes := mkFixes true true true true true false false.
+(* the code as it stood before degradeIfCurrent (used by the _before_own_close_refuted witnesses) *)
+Definition repaired_before_own_close : fixes := mkFixes true true true true true true false.
 
 Record cfg := mkCfg { c_engine : engine; c_proc : bool; c_wraps : bool (* force Kill wraps FatalError *); c_fix : fixes;
                       c_stfail : bool (* the store write of UpdateStatus(StatusRunning) may fail (an action of the model) *) }.
@@ -383,6 +387,18 @@ Definition late_read (c : cfg) (r : run) (choice : nat) : bool :=
 Definition finish_clean (s : st) (i : nat) (r : run) (e : res) : st :=
   set_clean (upd_run s i (rw_dead r (tomb_res (r_kill r) e))) i None.
 
+(* the recovery of run i failed: Degraded is written (repaired, degradeIfCurrent: only while the map entry is still
+   run i, otherwise a run published since owns the status; compare and write are ONE step because the code does both
+   under publishMu, which also covers the publication), then the tail runs with the recovery error *)
+Definition owns_close (c : cfg) (s : st) (i : nat) : bool :=
+  negb (f_own_close (c_fix c)) || onat_eqb (s_map s) (Some i).
+
+Definition close_failed_recovery (c : cfg) (s : st) (i : nat)
+           (goto : st -> cpc -> label -> option (st * label)) : option (st * label) :=
+  if owns_close c s i
+  then goto (with_status s Degraded) (CTail1 ResRecovery) (LStatus Degraded)
+  else goto s (CTail1 ResRecovery) LTau.
+
 Definition clean_step (c : cfg) (s : st) (i : nat) (choice : nat) : option (st * label) :=
   match get_run s i, s_cleans s i with
   | Some r, Some pc =>
@@ -407,7 +423,7 @@ Definition clean_step (c : cfg) (s : st) (i : nat) (choice : nat) : option (st *
       | CBackoff =>
           match choice with
           | 0 => goto s CWake LTau                                             (* attempt accepted, sleep *)
-          | _ => goto (with_status s Degraded) (CTail1 ResRecovery) (LStatus Degraded)   (* attempt > MaxRetries *)
+          | _ => close_failed_recovery c s i goto                                (* attempt > MaxRetries *)
           end
       | CWake =>
           if onat_eqb (s_map s) (Some i) then
@@ -429,7 +445,7 @@ Definition clean_step (c : cfg) (s : st) (i : nat) (choice : nat) : option (st *
           | SFin s' _ l => goto s' CFailed l
           | SStuck => None
           end
-      | CFailed => goto (with_status s Degraded) (CTail1 ResRecovery) (LStatus Degraded)
+      | CFailed => close_failed_recovery c s i goto
       | CTail1 e => goto (with_terr s (Some e)) (CTail2 e) LTau
       | CTail2 e =>
           match c_engine c with
@@ -671,6 +687,11 @@ Definition cfg_v1 (proc : bool) : cfg := mkCfg V1 proc true repaired false.
 Definition cfg_v2 (proc : bool) : cfg := mkCfg V2 proc true repaired false.
 Definition cfg_v1_shipped (proc : bool) : cfg := mkCfg V1 proc true shipped false.
 Definition cfg_v2_shipped (proc : bool) : cfg := mkCfg V2 proc true shipped false.
+(* the code as it stood before degradeIfCurrent (the closing write of a failed recovery was unconditional) *)
+Definition cfg_v1_before_own_close (proc : bool) : cfg := mkCfg V1 proc true repaired_before_own_close false.
+Definition cfg_v2_before_own_close (proc : bool) : cfg := mkCfg V2 proc true repaired_before_own_close false.
+Definition cfg_v1_io_before_own_close (proc : bool) : cfg := mkCfg V1 proc true repaired_before_own_close true.
+Definition cfg_v2_io_before_own_close (proc : bool) : cfg := mkCfg V2 proc true repaired_before_own_close true.
 (* with failing status writes enabled *)
 Definition cfg_v1_io (proc : bool) : cfg := mkCfg V1 proc true repaired true.
 Definition cfg_v2_io (proc : bool) : cfg := mkCfg V2 proc true repaired true.
